@@ -375,6 +375,45 @@ func judgeRejected(c Case, r Req, vs []verdict, names map[string]bool, text, lev
 
 // CheckDirect drives middleware.UntypedRequestBinder: map target against the model, struct target against
 // the map target.
+// scribble overwrites, in place, every slice a handler was handed (what a handler that sorts or normalises its
+// arguments does): values bound for one request must not be shared with what later requests are bound to.
+func scribble(v interface{}) {
+	rv := reflect.ValueOf(v)
+	switch rv.Kind() {
+	case reflect.Map:
+		for _, k := range rv.MapKeys() {
+			scribble(rv.MapIndex(k).Interface())
+		}
+	case reflect.Slice:
+		for i := 0; i < rv.Len(); i++ {
+			if e := rv.Index(i); e.CanSet() {
+				switch e.Kind() {
+				case reflect.String:
+					e.SetString("scribbled-by-an-earlier-request")
+				case reflect.Int, reflect.Int8, reflect.Int16, reflect.Int32, reflect.Int64:
+					e.SetInt(-77)
+				case reflect.Float32, reflect.Float64:
+					e.SetFloat(-77.5)
+				case reflect.Bool:
+					e.SetBool(!e.Bool())
+				default:
+					e.Set(reflect.Zero(e.Type()))
+				}
+			}
+		}
+	case reflect.Ptr, reflect.Interface:
+		if !rv.IsNil() {
+			scribble(rv.Elem().Interface())
+		}
+	case reflect.Struct:
+		for i := 0; i < rv.NumField(); i++ {
+			if f := rv.Field(i); f.CanInterface() && f.Kind() == reflect.Slice {
+				scribble(f.Interface())
+			}
+		}
+	}
+}
+
 func CheckDirect(c Case) *kit.Violation {
 	if err := c.wellFormed(); err != nil {
 		return kit.Failf("malformed case: %v", err)
@@ -480,6 +519,9 @@ func CheckDirect(c Case) *kit.Violation {
 				return kit.Failf("%s: map target rejects %v, struct target rejects %v\n%s", level, sortedKeys(n1), sortedKeys(norm), describeAll(c, r))
 			}
 		}
+		// the next request of the case goes through the same binders: nothing of this one may survive in them
+		scribble(got)
+		scribble(target.Interface())
 	}
 	return nil
 }
@@ -614,6 +656,7 @@ func CheckFull(c Case) *kit.Violation {
 			if v := judgeBound(c, r, vs, pr.got, level); v != nil {
 				return v
 			}
+			scribble(pr.got) // a handler may do what it likes with its arguments: later requests must not notice
 		case rec.Code == http.StatusUnprocessableEntity:
 			if pr.ran {
 				return kit.Failf("%s: answer 422 but the handler ran\n%s", level, describeAll(c, r))
